@@ -80,6 +80,9 @@ type evaluator struct {
 // Validate: data is ignored, prior is the value being validated.
 func Eval(n *spec.Node, env *Env, data any, prior any) *Result {
 	e := &evaluator{env: env, res: &Result{}}
+	if prior == nil {
+		prior = zeroTree(n.GoType()) // a fresh destination
+	}
 	e.res.Out = e.node(n, data, prior, "")
 	// post-transforms: on a globally successful run every visited node's post-transforms ran once, in order
 	return e.res
@@ -169,12 +172,14 @@ func (e *evaluator) primitive(n *spec.Node, data any, prior any, path string) an
 			case eff.Required:
 				if eff.HasCatch {
 					e.res.CatchFired = append(e.res.CatchFired, path)
+					e.posts(n, path, eff.Catch)
 					return eff.Catch
 				}
 				e.issue(XIssue{Path: testPath(path, eff.RequiredOpts), Code: reqCode(eff.RequiredOpts, "required"), Dtype: n.DType(), Kind: "required", Node: n, Opts: eff.RequiredOpts})
 				return prior
 			default:
 				e.res.Skipped = append(e.res.Skipped, path)
+				e.postsOpt(n, path, prior, true)
 				return prior
 			}
 		} else {
@@ -186,6 +191,7 @@ func (e *evaluator) primitive(n *spec.Node, data any, prior any, path string) an
 			if !c.OK {
 				if eff.HasCatch {
 					e.res.CatchFired = append(e.res.CatchFired, path)
+					e.posts(n, path, eff.Catch)
 					return eff.Catch
 				}
 				e.issue(XIssue{Path: path, Code: "coerce", Dtype: n.DType(), Kind: "coerce", Node: n, Value: obs.Norm(data)})
@@ -201,12 +207,14 @@ func (e *evaluator) primitive(n *spec.Node, data any, prior any, path string) an
 			case eff.Required:
 				if eff.HasCatch {
 					e.res.CatchFired = append(e.res.CatchFired, path)
+					e.posts(n, path, eff.Catch)
 					return eff.Catch
 				}
 				e.issue(XIssue{Path: testPath(path, eff.RequiredOpts), Code: reqCode(eff.RequiredOpts, "required"), Dtype: n.DType(), Kind: "required", Node: n, Opts: eff.RequiredOpts})
 				return prior
 			default:
 				e.res.Skipped = append(e.res.Skipped, path)
+				e.postsOpt(n, path, prior, true)
 				return prior
 			}
 		} else {
@@ -218,6 +226,7 @@ func (e *evaluator) primitive(n *spec.Node, data any, prior any, path string) an
 	if len(failed) > 0 {
 		if eff.HasCatch {
 			e.res.CatchFired = append(e.res.CatchFired, path)
+			e.posts(n, path, eff.Catch)
 			return eff.Catch
 		}
 		e.res.Issues = append(e.res.Issues, failed...)
@@ -233,9 +242,12 @@ func reqCode(o spec.TestOpts, def string) string {
 	return def
 }
 
-func (e *evaluator) posts(n *spec.Node, path string, val any) {
+func (e *evaluator) posts(n *spec.Node, path string, val any) { e.postsOpt(n, path, val, false) }
+
+// postsOpt: optional = the statements do not say whether the post-transforms of a skipped (absent optional) node run.
+func (e *evaluator) postsOpt(n *spec.Node, path string, val any, optional bool) {
 	for i := range n.Posts {
-		e.res.Events = append(e.res.Events, Event{Kind: "post", NodeID: n.ID, UID: n.Posts[i].UID, Path: path, Val: val})
+		e.res.Events = append(e.res.Events, Event{Kind: "post", NodeID: n.ID, UID: n.Posts[i].UID, Path: path, Val: val, Optional: optional})
 	}
 }
 
@@ -257,6 +269,7 @@ func (e *evaluator) slice(n *spec.Node, data any, prior any, path string) any {
 				return prior
 			default:
 				e.res.Skipped = append(e.res.Skipped, path)
+				e.postsOpt(n, path, prior, true)
 				return prior
 			}
 		} else {
@@ -293,6 +306,7 @@ func (e *evaluator) slice(n *spec.Node, data any, prior any, path string) any {
 				return prior
 			default:
 				e.res.Skipped = append(e.res.Skipped, path)
+				e.postsOpt(n, path, prior, true)
 				return prior
 			}
 		}
